@@ -92,8 +92,19 @@ type rec struct {
 
 var w int // address bits of the current reset
 
-func v4(v int) net.IP { return net.IPv4(10, 0, 0, byte(v)).To4() }
+// abstract address v >= 0: inside the embedded space; v < 0: an address outside of it
+func v4(v int) net.IP {
+	if v < 0 {
+		return net.IPv4(11, 1, 1, byte(-v)).To4()
+	}
+	return net.IPv4(10, 0, 0, byte(v)).To4()
+}
 func v6(v int) net.IP {
+	if v < 0 {
+		ip := net.ParseIP("2001:db9::")
+		ip[15] = byte(-v)
+		return ip
+	}
 	ip := net.ParseIP("2001:db8::")
 	ip[15] = byte(v)
 	return ip
